@@ -27,7 +27,7 @@ RULE = (
 ASSUMPTIONS = [
     "which of the two process-inject transform blobs is 'prepend' is not judged (cannot be established offline): blobs, order and bytes are",
     "the spelling NtQueueApcThread_s / NtQueueApcThread-s is normalised",
-    "BeaconGate: group labels are compared exactly and in order, the remaining individual APIs as a duplicate-free set",
+    "BeaconGate: group labels first (All | Comms, Core, Cleanup in that order), then the remaining individual APIs in flag-vector order",
     "kill dates are 8-digit YYYYMMDD integers or 0",
 ]
 REQUIRED_MONITORS = ["transform", "recover", "execute", "beacongate", "strings", "derived", "procinj", "gargle", "pivot"]
@@ -188,6 +188,9 @@ def judge_gate(flags, got):
         return f"group labels {glabels} (expected {labels}) for flags {''.join(map(str, flags))}"
     if len(set(grest)) != len(grest) or set(grest) != rest:
         return f"individual APIs {sorted(grest)} (expected {sorted(rest)}) for flags {''.join(map(str, flags))}"
+    # "in order": the individually listed APIs follow the order of the flag vector (a decoding is a function of its input)
+    if grest != [n for n in GATE_FIELDS if n in rest]:
+        return f"individual APIs listed as {grest}, flag-vector order is {[n for n in GATE_FIELDS if n in rest]}"
     return None
 
 
@@ -273,6 +276,10 @@ def build_case(rng):
             recs += [tlv.short(2, port), tlv.integer(37, wm), tlv.short(31, trial), tlv.integer(3, sleep), tlv.short(5, jit)]
             exp += [("derived", "prop", "port", port), ("derived", "prop", "watermark", wm), ("derived", "prop", "is_trial", bool(trial)),
                     ("derived", "prop", "sleeptime", sleep), ("derived", "prop", "jitter", jit)]
+        elif what == "domains" and rng.random() < 0.15:
+            # SMB / TCP beacons carry an empty domain list
+            recs.append(tlv.ptr(8, b"", pad=rng.choice([0, 1, 256])))
+            exp += [("derived", "prop", "domain_uri_pairs", []), ("derived", "prop", "domains", []), ("derived", "prop", "uris", [])]
         elif what == "domains":
             n = rng.randrange(1, 5)
             doms = ["".join(rng.choice("abcdefghijklmnopqrstuvwxyz0123456789-.") for _ in range(rng.randrange(1, 20))) for _ in range(n)]
